@@ -16,7 +16,12 @@ from __future__ import annotations
 
 import calendar
 import datetime as dt
+import json
+import os
 import random
+import re
+import shutil
+import tempfile
 from fractions import Fraction
 
 from ..core import Case, Prop
@@ -52,6 +57,8 @@ def tok_of(v) -> str:
         return "ERR"
     if isinstance(v, bool):
         return "T" if v else "F"
+    if isinstance(v, (list, tuple)):
+        return "L" + "_".join(tok_of(x) for x in v)
     f = Fraction(float(v)) if isinstance(v, float) else Fraction(v)
     return str(f.numerator) if f.denominator == 1 else f"{f.numerator}/{f.denominator}"
 
@@ -60,6 +67,8 @@ def val_of(tok: str, rs: random.Random):
     """a python value whose canonical token is `tok` (int / float chosen by the style PRNG)"""
     if tok == "null":
         return None
+    if tok.startswith("L"):
+        return [val_of(t, rs) for t in tok[1:].split("_")] if len(tok) > 1 else []
     if tok == "T":
         return True
     if tok == "F":
@@ -72,6 +81,12 @@ def val_of(tok: str, rs: random.Random):
 
 def check_tok(tok: str) -> None:
     if tok in ("T", "F"):
+        return
+    if tok.startswith("L"):
+        for t in (tok[1:].split("_") if len(tok) > 1 else []):
+            if t.startswith("L"):
+                raise Malformed(tok)
+            check_tok(t)
         return
     try:
         f = Fraction(tok)
@@ -290,6 +305,159 @@ def tree_data(tree, rs: random.Random):
     return {name: tree_data(sub, rs) for name, sub in tree[1]}
 
 
+# ---- construction routes (implementation-side glue: the model receives the declared tree) -------------------
+
+DATE_KEY = re.compile(r"^\d{4}-\d{2}-\d{2}$")
+PLAIN_KEY = re.compile(r"^[A-Za-z_][A-Za-z0-9_]*$")
+
+
+def yaml_scalar(v) -> str:
+    if v is None:
+        return "null"
+    if isinstance(v, bool):
+        return "true" if v else "false"
+    if isinstance(v, list):
+        return "[" + ", ".join(yaml_scalar(x) for x in v) + "]"
+    if isinstance(v, float):
+        return repr(v)
+    return str(v)                    # int, or the bare word `expected`
+
+
+def yaml_key(k, rs: random.Random) -> str:
+    if isinstance(k, int):
+        return str(k)
+    if DATE_KEY.match(k):            # unquoted: a YAML timestamp, handed back as text by the loader's constructor
+        return k if rs.random() < 0.7 else f"'{k}'"
+    if k.isdigit():
+        return k if rs.random() < 0.5 else f'"{k}"'      # unquoted: loaded as an int, turned into text by the node
+    return k if PLAIN_KEY.match(k) else json.dumps(k)
+
+
+def yaml_block(d: dict, rs: random.Random, ind: int = 0) -> str:
+    """a YAML document for the same mapping the `data=` route receives"""
+    if not d:
+        return " " * ind + "{}\n"
+    pad, out = " " * ind, []
+    for k, v in d.items():
+        key = yaml_key(k, rs)
+        if isinstance(v, dict):
+            out.append(f"{pad}{key}:\n" + yaml_block(v, rs, ind + 2) if v else f"{pad}{key}: {{}}\n")
+        elif isinstance(v, list) and any(isinstance(x, dict) for x in v):
+            out.append(f"{pad}{key}:\n" + "".join(f"{pad}- {json.dumps(x)}\n" for x in v))
+        elif isinstance(v, list) and not v and k == "brackets":
+            out.append(f"{pad}{key}: []\n")
+        else:
+            out.append(f"{pad}{key}: {yaml_scalar(v)}\n")
+    return "".join(out)
+
+
+NODE_NOISE = [("description", "a group"), ("documentation", "c06"), ("metadata", {"unit": "currency"}), ("unit", "/1"),
+              ("reference", "https://example.org")]
+
+
+def node_data(tree, rs: random.Random) -> dict:
+    """the mapping of a node for the `data=` / YAML routes: reserved keys interleaved (they are not members),
+    all-digit names as int keys now and then"""
+    d = {}
+    noise = [kv for kv in NODE_NOISE if rs.random() < 0.15]
+    for name, sub in tree[1]:
+        if noise and rs.random() < 0.5:
+            k, v = noise.pop()
+            d[k] = v
+        key = int(name) if name.isdigit() and str(int(name)) == name and rs.random() < 0.5 else name
+        d[key] = node_data(sub, rs) if sub[0] == "N" else tree_data(sub, rs)
+    d.update(noise)
+    return d
+
+
+def write_dir(tree, path: str, rs: random.Random) -> None:
+    """a directory of YAML files for a node: one file (or sub-directory) per child, `index.yaml` for the
+    node's own description, files of other types (ignored by the loader)"""
+    if rs.random() < 0.5:
+        with open(os.path.join(path, "index" + rs.choice([".yaml", ".yml"])), "w") as f:
+            f.write(rs.choice(["description: a group\nmetadata:\n  unit: currency\n", "documentation: c06\n", "{}\n",
+                               "reference: https://example.org\nunit: /1\n"]))
+    if rs.random() < 0.4:
+        with open(os.path.join(path, rs.choice(["README.txt", "notes.md", "zz.json", "yaml"])), "w") as f:
+            f.write("2020-01-01: 1\n")
+    for name, sub in tree[1]:
+        if sub[0] == "N" and rs.random() < 0.6:
+            os.mkdir(os.path.join(path, name))
+            write_dir(sub, os.path.join(path, name), rs)
+        else:
+            data = node_data(sub, rs) if sub[0] == "N" else tree_data(sub, rs)
+            with open(os.path.join(path, name + rs.choice([".yaml", ".yml"])), "w") as f:
+                f.write(yaml_block(data, rs))
+
+
+def from_yaml_file(data: dict, name: str, rs: random.Random):
+    from openfisca_core.parameters import helpers
+    tmp = tempfile.mkdtemp(prefix="c06-")
+    try:
+        path = os.path.join(tmp, "x" + rs.choice([".yaml", ".yml"]))
+        with open(path, "w") as f:
+            f.write(yaml_block(data, rs))
+        return helpers.load_parameter_file(path, name)
+    finally:
+        shutil.rmtree(tmp, ignore_errors=True)
+
+
+def build_param(entries, name: str, rs: random.Random):
+    from openfisca_core.parameters import Parameter, ValuesHistory
+    data = param_data(entries, rs)
+    r = rs.random()
+    if r < 0.12:
+        return from_yaml_file(data, name, rs)
+    return (ValuesHistory if r < 0.2 else Parameter)(name, data)
+
+
+def build_obj(tree, name: str, rs: random.Random, st: dict, allow_merge: bool = True):
+    """the real object for a declared tree, each node through a randomly chosen construction route.
+    st["unordered"] is set when a directory was read (children then come in os.listdir order)."""
+    from openfisca_core.parameters import Parameter, ParameterNode, ParameterScale
+    if tree[0] == "P":
+        return build_param(tree[1], name, rs)
+    if tree[0] == "S":
+        data = tree_data(tree, rs)
+        return from_yaml_file(data, name, rs) if rs.random() < 0.15 else ParameterScale(name, data, None)
+    names = [k for k, _ in tree[1]]
+    route = rs.choices(["data", "dir", "add", "merge"], [5, 2, 2, 2 if allow_merge and len(names) > 1 else 0])[0]
+    if len(set(names)) < len(names):
+        route = "add"                                   # only add_child can be offered the same name twice
+    if route == "data":
+        return ParameterNode(name, data=node_data(tree, rs))
+    if route == "dir":
+        tmp = tempfile.mkdtemp(prefix="c06-")
+        try:
+            write_dir(tree, tmp, rs)
+            st["unordered"] = True
+            return ParameterNode(name, directory_path=tmp)
+        finally:
+            shutil.rmtree(tmp, ignore_errors=True)
+    sub_name = lambda k: f"{name}.{k}" if name else k
+    if route == "add":
+        node = ParameterNode(name, data={kv[0]: kv[1] for kv in NODE_NOISE if rs.random() < 0.1})
+        for k, sub in tree[1]:
+            node.add_child(k, build_obj(sub, sub_name(k), rs, st))
+        if names and rs.random() < 0.5:                 # a second child of an existing name is refused ...
+            try:
+                node.add_child(rs.choice(names), Parameter("intruder", {"0001-01-01": 424242}))
+            except ValueError:
+                pass
+        if rs.random() < 0.3:                           # ... and so is something that is not a parameter
+            try:
+                node.add_child("zz_not_a_parameter", rs.choice([5, {"2020-01-01": 1}, None]))
+            except TypeError:
+                pass
+        return node
+    j = rs.randint(0, len(tree[1]))                      # merge: the first j children, then the others
+    a = build_obj(("N", tree[1][:j]), name, rs, st, False) if j else ParameterNode(name, data={})
+    b = (build_obj(("N", tree[1][j:]), rs.choice([name, "other"]), rs, st, False) if j < len(tree[1])
+         else ParameterNode("other", data={}))
+    a.merge(b)
+    return a
+
+
 def period_arg(a: int, b: int, rs: random.Random):
     """a `period=` argument denoting exactly the days a..b (a <= b), in a randomly chosen spelling"""
     from openfisca_core import periods
@@ -432,14 +600,55 @@ def read_at(obj, o: int, rs: random.Random):
         return RAISED
 
 
-def show_snap(x) -> str:
+ACCESS_FORMS = ("iter", "in", "attr", "item")
+
+
+def members_of(x, declared: list, rs: random.Random, unordered: bool):
+    """[(name, value)] of a node-at-instant, found through one of its access forms: iteration (+ item or
+    attribute), `name in node`, attribute access (absent = ParameterNotFoundError), item access (absent =
+    KeyError). For the last three every declared child name is tried, defined at that date or not."""
+    from openfisca_core.errors import ParameterNotFoundError
+    listed = list(x)
+    form = rs.choice(ACCESS_FORMS)
+    out = []
+    if form == "iter":
+        names = sorted(listed, key=lambda k: declared.index(k) if k in declared else len(declared)) if unordered else listed
+        return [(k, x[k] if rs.random() < 0.5 else getattr(x, k)) for k in names]
+    for k in dict.fromkeys(declared):
+        if form == "in":
+            if k in x:
+                out.append((k, getattr(x, k) if rs.random() < 0.5 else x[k]))
+        elif form == "attr":
+            try:
+                out.append((k, getattr(x, k)))
+            except ParameterNotFoundError:
+                pass
+        else:
+            try:
+                out.append((k, x[k]))
+            except KeyError:
+                pass
+    out += [(k, x[k]) for k in listed if k not in declared]       # a member nobody declared would show here
+    return out
+
+
+def show_snap(x, tree=None, rs=None, unordered=False) -> str:
     from openfisca_core.parameters import ParameterNodeAtInstant
     if x is None:
         return "none"
     if x is RAISED:
         return "ERR"
     if isinstance(x, ParameterNodeAtInstant):
-        return "{" + ",".join(f"{k}={show_snap(x[k])}" for k in list(x)) + "}"
+        if tree is None or tree[0] != "N":
+            return "{" + ",".join(f"{k}={show_snap(x[k])}" for k in list(x)) + "}"
+        subs = {}
+        for k, sub in tree[1]:
+            subs.setdefault(k, sub)
+        try:
+            mem = members_of(x, [k for k, _ in tree[1]], rs, unordered)
+        except Exception:
+            return "ERR"
+        return "{" + ",".join(f"{k}={show_snap(v, subs.get(k), rs, unordered)}" for k, v in mem) + "}"
     cls = type(x).__name__
     if cls in KIND_OF_CLASS:
         vals = x.amounts if hasattr(x, "amounts") else x.rates
@@ -466,7 +675,7 @@ def impl(case: Case) -> str:
     if parsed[0] == "p":
         _, entries, ups, qs = parsed
         try:
-            p = Parameter("p", param_data(entries, rs))
+            p = build_param(entries, "p", rs)
         except Exception:
             return "ERR"
         stages = [stage_p(p, qs, rs)]
@@ -475,33 +684,18 @@ def impl(case: Case) -> str:
             stages.append(stage_p(p, qs, rs) if ok else "ERR")
         return "|".join(stages)
     _, tree, ups, qs = parsed
+    st: dict = {}
     try:
-        data = tree_data(tree, rs)
-        if tree[0] == "P":
-            obj = Parameter("n", data)
-        elif tree[0] == "S":
-            obj = ParameterScale("n", data, None)
-        else:
-            obj = ParameterNode("n", data=data)
+        obj = build_obj(tree, "n", rs, st)
     except Exception:
         return "ERR"
-    stage = lambda: ";".join(show_snap(read_at(obj, q, rs)) for q in qs)
+    stage = lambda: ";".join(show_snap(read_at(obj, q, rs), tree, rs, st.get("unordered", False)) for q in qs)
     stages = [stage()]
     for (child, form, a, b, v) in ups:
         target = obj.children[child] if rs.random() < 0.5 else getattr(obj, child)
         ok = call_update(target, form, a, b, v, rs)
         stages.append(stage() if ok else "ERR")
     return "|".join(stages)
-
-
-def build_tree(tree, rs: random.Random):
-    from openfisca_core.parameters import Parameter, ParameterNode, ParameterScale
-    data = tree_data(tree, rs)
-    if tree[0] == "P":
-        return Parameter("n", data)
-    if tree[0] == "S":
-        return ParameterScale("n", data, None)
-    return ParameterNode("n", data=data)
 
 
 def target_of(obj, tree, addr: str, rs: random.Random):
@@ -518,10 +712,12 @@ def target_of(obj, tree, addr: str, rs: random.Random):
 def impl_history(parsed, rs: random.Random) -> str:
     from openfisca_core.parameters import Parameter
     kind, first, ops, qs = parsed
+    st: dict = {}
     try:
-        objs = [Parameter("p", param_data(first, rs)) if kind == "h" else build_tree(first, rs)]
+        objs = [build_param(first, "p", rs) if kind == "h" else build_obj(first, "n", rs, st)]
     except Exception:
         return "ERR"
+    unordered = st.get("unordered", False)
     out = []
     for op in ops:
         if op[0] == "c":
@@ -529,7 +725,8 @@ def impl_history(parsed, rs: random.Random) -> str:
             out.append("c")
         elif op[0] == "r":
             o = objs[op[1]]
-            out.append(stage_p(o, qs, rs) if kind == "h" else ";".join(show_snap(read_at(o, q, rs)) for q in qs))
+            out.append(stage_p(o, qs, rs) if kind == "h"
+                       else ";".join(show_snap(read_at(o, q, rs), first, rs, unordered) for q in qs))
         else:
             _, i, (child, form, a, b, v) = op
             target = objs[i] if kind == "h" else target_of(objs[i], first, child, rs)
@@ -805,7 +1002,10 @@ VALUE_POOL = ["0", "1", "2", "3", "5", "7", "10", "12", "100", "-4", "1/2", "3/4
 def gen_value(rng: random.Random, null_p=0.2) -> str:
     if rng.random() < null_p:
         return "null"
-    return rng.choice(VALUE_POOL) if rng.random() < 0.7 else str(rng.randint(-50, 400))
+    r = rng.random()
+    if r < 0.06:                              # lists are values too (ALLOWED_PARAM_TYPES)
+        return "L" + "_".join(rng.choice(VALUE_POOL) for _ in range(rng.randint(0, 3)))
+    return rng.choice(VALUE_POOL) if r < 0.72 else str(rng.randint(-50, 400))
 
 
 def gen_history(rng: random.Random, lo: int, hi: int, nmax=6, numeric=None):
@@ -1042,7 +1242,7 @@ def gen_thist_case(rng: random.Random) -> Case:
     r = rng.random()
     if r < 0.6:
         while True:
-            tree = gen_node(rng, lo, hi)
+            tree = gen_deep(rng, lo, hi) if rng.random() < 0.2 else gen_node(rng, lo, hi)
             params = [(k, s) for k, s in tree[1] if s[0] == "P"]
             if params:
                 break
@@ -1091,31 +1291,64 @@ AMOUNTS = ["0", "1", "5", "12", "7/2", "100"]
 
 
 def gen_scale(rng: random.Random, lo: int, hi: int, nb=None):
-    nb = nb or rng.randint(1, 4)
+    nb = nb or rng.choice([1, 1, 2, 3, 4])
     flavour = rng.choice(["rate", "rate", "rate", "amount", "amount", "avg", "mixed"])
     brs = []
     for _ in range(nb):
         thr = gen_history(rng, lo, hi, 3, THRESHOLDS)
-        if rng.random() < 0.6 and thr:       # most thresholds start early so that rows exist
+        shape = rng.random()
+        if shape < 0.5 and thr:              # most thresholds start early so that rows exist
             thr[0] = (lo + rng.randint(-1, 3), rng.choice(THRESHOLDS))
             thr = list({d: (d, t) for d, t in thr}.values())
+        elif shape < 0.7:                    # the threshold starts later than the value: no row until then
+            thr = [(rng.randint(lo + 5, hi - 3), rng.choice(THRESHOLDS))]
         use = {"rate": (1, 0, 0), "amount": (0, 1, 0), "avg": (0, 0, 1),
                "mixed": (rng.random() < 0.6, rng.random() < 0.4, rng.random() < 0.3)}[flavour]
         rate = gen_history(rng, lo, hi, 3, RATES) if use[0] else []
         amount = gen_history(rng, lo, hi, 3, AMOUNTS) if use[1] else []
         avg = gen_history(rng, lo, hi, 2, RATES) if use[2] else []
+        if 0.5 <= shape < 0.7:               # ... the value being in force from before the window
+            early = lambda pool: [(lo - rng.randint(1, 3), rng.choice(pool))]
+            rate, amount, avg = (early(RATES) if use[0] else []), (early(AMOUNTS) if use[1] else []), (early(RATES) if use[2] else [])
         brs.append((thr, rate, amount, avg))
     return ("S", rng.random() < 0.15, brs), flavour
 
 
+# child names: plain, all-digit (int keys / numeric file names), needing quotes or escaping in YAML, a Python keyword.
+# Not generated: names that collide with the node classes' own attributes (`children`, `add_child`, `_children`).
+NAMES = ["a", "b", "c", "d", "e", "f1", "g_2", "2", "0", "17", "a-b", "x.y", "class", "UP", "k'q", "n+1"]
+
+
+def gen_deep(rng: random.Random, lo: int, hi: int):
+    """groups nested 3-4 deep whose innermost members start late, are null or never start: the inner groups
+    are members of their parents at every date, with no member of their own before that"""
+    def late():
+        r = rng.random()
+        if r < 0.2:
+            return ("P", [])
+        d0 = rng.randint(lo + 3, hi - 2)
+        es = [(d0, gen_value(rng, 0.0))]
+        if r < 0.5:
+            es.append((rng.randint(d0 + 1, hi), "null"))
+        return ("P", es)
+    names = rng.sample(NAMES, 8)
+    inner = ("N", [(names[0], late())] + ([(names[1], late())] if rng.random() < 0.4 else []))
+    for lvl in range(rng.choice([2, 2, 3])):
+        sib = [(names[2 + lvl], ("P", gen_history(rng, lo, hi, 3)))] if rng.random() < 0.5 else []
+        kids = [(names[5 + lvl], inner)] + sib
+        rng.shuffle(kids)
+        inner = ("N", kids)
+    return inner
+
+
 def gen_node(rng: random.Random, lo: int, hi: int, depth=0):
-    names = ["a", "b", "c", "d", "e", "f1", "g_2"]
+    names = list(NAMES)
     rng.shuffle(names)
     n = rng.randint(1, 5 if depth == 0 else 3)
     kids = []
     for name in names[:n]:
         r = rng.random()
-        if r < 0.14 and depth < 2:
+        if r < 0.18 and depth < 3:
             kids.append((name, gen_node(rng, lo, hi, depth + 1)))
         elif r < 0.24:
             kids.append((name, gen_scale(rng, lo, hi, rng.randint(1, 2))[0]))
@@ -1127,9 +1360,13 @@ def gen_node(rng: random.Random, lo: int, hi: int, depth=0):
 def gen_node_case(rng: random.Random) -> Case:
     lo = rng.choice(BASES).toordinal()
     hi = lo + 29
-    tree = gen_node(rng, lo, hi)
+    deep = rng.random() < 0.2
+    tree = gen_deep(rng, lo, hi) if deep else gen_node(rng, lo, hi)
     params = [(k, s) for k, s in tree[1] if s[0] == "P"]
-    ups, tags, claimed = [], [], True
+    ups, tags, claimed = [], ["deep"] if deep else [], True
+    if rng.random() < 0.02:                    # the same name twice: refused on every route (not binding)
+        tree = ("N", tree[1] + [(tree[1][0][0], ("P", gen_history(rng, lo, hi, 2)))])
+        return mk_tree(tree, [], f"{lo - 2}..{hi + 2}", rng.getrandbits(30), False, ["node", "duplicate-name"])
     if params:
         for _ in range(rng.choice([0, 0, 1, 1, 2])):
             k, s = rng.choice(params)
